@@ -8,6 +8,7 @@ embedded/store/verification.go, branch by branch), ImmuModel/Store/History.lean.
 -/
 import ImmuModel.Store.Proofs.C01Proofs
 import ImmuModel.Store.Proofs.C01Complete
+import ImmuModel.Client.Proofs.Flow
 
 namespace ImmuModel.Props.C01
 open ImmuModel ImmuModel.Tx ImmuModel.Merkle ImmuModel.Store
@@ -120,6 +121,49 @@ theorem entry_sound (hs : Hs D) (pr : HProof D) (e : EntryV1 D) (es : List (Entr
 theorem entryDigest_injective (hs : Hs D) (e e' : EntryV1 D) (hf : e.Fits) (hf' : e'.Fits)
     (h : e.digest hs = e'.digest hs) : e = e' ∨ HColl hs :=
   entryDigestV1_inj hs e e' hf hf' h
+
+/-- **Client flow (pkg/client verifiedGet).** What an accepted verified read establishes when the
+client holds a state: the header on the proven side hashes to the proven state and carries the proven
+tx id, the digest of the spec built from the REQUESTED key is included under that header's entries
+digest, the dual proof between old and new state was accepted (so every theorem above applies), the
+new state is the proven tx when it is not older than the local one and the local state otherwise. The
+model `Client.verifiedGet` is tied to the real SDK by the `cget` correspondence (real pkg/client over
+bufconn, tampered responses included). -/
+theorem client_verifiedGet_sound (hs : Hs D) (sigOk : Client.State D → Bool) (st : Client.State D)
+    (reqKey : Bytes) (atTx : Nat) (r : Client.GetResp D) (ns : Client.State D) (hpos : 0 < st.txId)
+    (h : Client.verifiedGet hs sigOk st reqKey atTx r = some (.ok ns)) :
+    ∃ vTx spec dg hdr provenAlh sId sAlh tId tAlh,
+      Client.getTarget reqKey atTx r.entry = some (vTx, spec) ∧
+      Client.specDigest hs r.version spec = some dg ∧
+      ((st.txId ≤ vTx ∧ r.dual.targetTxHeader = some hdr ∧ sId = st.txId ∧ sAlh = st.txHash ∧ tId = vTx ∧ tAlh = provenAlh) ∨
+       (vTx < st.txId ∧ r.dual.sourceTxHeader = some hdr ∧ sId = vTx ∧ sAlh = provenAlh ∧ tId = st.txId ∧ tAlh = st.txHash)) ∧
+      alh hs hdr = some provenAlh ∧ hdr.id = vTx ∧
+      hVerifyInclusion hs.mhH hs.enc r.inclusion dg hdr.eh = true ∧
+      verifyDualProof hs (some r.dual) sId tId sAlh tAlh = some true ∧
+      ns = ⟨tId, tAlh⟩ ∧ sigOk ns = true :=
+  Client.verifiedGet_sound hs sigOk st reqKey atTx r ns hpos h
+
+/-- A plain (non-reference) entry that is accepted carries the requested key and the proven tx
+(repair bd31762), trust-on-first-use included. -/
+theorem client_plain_entry_is_requested (hs : Hs D) (sigOk : Client.State D → Bool) (st : Client.State D)
+    (reqKey : Bytes) (atTx : Nat) (r : Client.GetResp D) (ns : Client.State D) (href : r.entry.ref = none)
+    (h : Client.verifiedGet hs sigOk st reqKey atTx r = some (.ok ns)) :
+    r.entry.key = reqKey ∧ (atTx ≠ 0 → r.entry.tx = atTx) ∧
+    Client.getTarget reqKey atTx r.entry = some (r.entry.tx, Client.entrySpec reqKey r.entry.md r.entry.value) :=
+  Client.verifiedGet_plain_entry hs sigOk st reqKey atTx r ns href h
+
+/-- **End to end (header v1).** If the proven transaction's entries are `es`, an accepted plain verified
+read returns a (metadata, key, value) that IS one of that transaction's entries — or exhibits a collision. -/
+theorem client_returned_entry_is_in_tx (hs : Hs D) (sigOk : Client.State D → Bool) (st : Client.State D)
+    (reqKey : Bytes) (atTx : Nat) (r : Client.GetResp D) (ns : Client.State D) (hpos : 0 < st.txId)
+    (hv1 : r.version = 1) (href : r.entry.ref = none)
+    (h : Client.verifiedGet hs sigOk st reqKey atTx r = some (.ok ns))
+    (es : List (EntryV1 D)) (hne : es ≠ []) (hfs : ∀ x ∈ es, x.Fits)
+    (hfit : r.entry.md.length < 65536 ∧ (Client.wrapKey reqKey).length < 65536)
+    (hes : ∀ hdr, (r.dual.targetTxHeader = some hdr ∨ r.dual.sourceTxHeader = some hdr) → hdr.id = r.entry.tx →
+        hdr.eh = mth hs.mhH ((es.map (EntryV1.digest hs)).map (fun d => hs.mhH.leafH (hs.enc d)))) :
+    (⟨r.entry.md, Client.wrapKey reqKey, hs.H (UInt8.ofNat Gen.dbPlainValuePrefix :: r.entry.value)⟩ : EntryV1 D) ∈ es ∨ HColl hs :=
+  Client.verifiedGet_entry_in_tx hs sigOk st reqKey atTx r ns hpos hv1 href h es hne hfs hfit hes
 
 /-! Non-vacuity: a well-formed one-transaction history exists for every hash, and its state
 verifies against itself (so the hypotheses of the theorems above are satisfiable). -/
